@@ -1310,6 +1310,9 @@ func solveOne(o *Obligation, opt SolveOpts, rec func(string, float64, bool)) {
 	if quick > 3 {
 		quick = 3
 	}
+	if want == "sat" && strings.Contains(o.Name, "::cover.") && !strings.HasSuffix(o.Name, "::cover.requires") {
+		quick = 1 // call-site vacuity covers: a contradiction shows up at once, a model rarely does
+	}
 	v, out, d := runSolver(solvers[0], file, quick, ctx)
 	rec(solvers[0].name, d, v == "sat" || v == "unsat")
 	o.Secs += d
